@@ -13,6 +13,7 @@ Steps (JSON lists):
   ["expire"]                   expire_snapshots(now + 1): metadata-only commit
   ["append_expire", n]         append_data + expire_snapshots in one transaction
   ["delete_snapshot", k]       SnapshotManager.delete_snapshot(k-th snapshot)
+  ["abort", [n1, ...]]         one transaction, one append_data per n, then Transaction.rollback()
 Every step is bracketed by marks "<i>:begin" / "<i>:end" in the trace; the result file lists, per
 step, the data files written in API order (from the transaction's own bookkeeping).
 """
@@ -102,6 +103,14 @@ def run_steps(root: str, steps: List[Any], mark: Callable[[str], None], mutation
                             tx.append_data(records=_rows(n, salt), schema=None)
                         res["data_files"] = list(tx._written_files)
                         tx.commit()
+                    elif kind == "abort":
+                        tx = table.new_transaction().begin()
+                        for n in st[1]:
+                            salt += 1
+                            tx.append_data(records=_rows(n, salt), schema=None)
+                        res["data_files"] = list(tx._written_files)
+                        res["ok"] = bool(tx.rollback())
+                        res["aborted"] = True
                     elif kind in ("delete", "delete_append"):
                         live = [f.file_path for f in table._get_all_data_files()]   # manifest order: independent of the random names
                         tx = table.new_transaction().begin()
